@@ -161,3 +161,26 @@ theorem blockWideb_sound (g : G) (bw : Array Rat) (roots : Array Nat) (h : block
   exact h
 
 end Autog
+
+namespace Autog
+
+/-- END TO END on the composed model, nothing assumed: with VAlign or PackRight consecutive nodes of every band the positioner
+    receives from phase 3 are separated by at least NodeSpacing (the layer lists are well formed by `layersWF_upto_phase3`) -/
+theorem C04_valign_separated_on_pipeline (cfg : Cfg) (g1 g2 g3 : G) (h2 : phase2Model cfg g1 = .ok g2)
+    (h3 : phase3Model (fun g => (orderWMedianP 24 g).map (·.1)) g2 = .ok g3) (l : Layer) (hl : l ∈ g3.layers.toList) :
+    Phase4Simple.Separated cfg.ns (xsOf (execVerticalAlign cfg.ns g3) l) (widthsOf (execVerticalAlign cfg.ns g3) l) :=
+  C04_valign_separated cfg.ns g3 (layersWF_upto_phase3 cfg g1 g2 g3 h2 h3) l hl
+
+theorem C04_packright_separated_on_pipeline (cfg : Cfg) (g1 g2 g3 : G) (h2 : phase2Model cfg g1 = .ok g2)
+    (h3 : phase3Model (fun g => (orderWMedianP 24 g).map (·.1)) g2 = .ok g3) (l : Layer) (hl : l ∈ g3.layers.toList) :
+    Phase4Simple.Separated cfg.ns (xsOf (execPackRight cfg.ns g3) l) (widthsOf (execPackRight cfg.ns g3) l) :=
+  C04_packright_separated cfg.ns g3 (layersWF_upto_phase3 cfg g1 g2 g3 h2 h3) l hl
+
+/-- … and with SinkColoring under the one structural contract `LayeredWF` on that state -/
+theorem C04_sinkcoloring_separated_on_pipeline (cfg : Cfg) (g1 g2 g3 : G) (h2 : phase2Model cfg g1 = .ok g2)
+    (h3 : phase3Model (fun g => (orderWMedianP 24 g).map (·.1)) g2 = .ok g3) (hL : LayeredWF g3)
+    (g' : G) (d : Nat) (h : execSinkColoring cfg.ns g3 = .ok (g', d)) :
+    ∀ l ∈ g3.layers.toList, ∀ p ∈ adjPairs l.nodes, (g'.node p.1).x + (g'.node p.1).w + cfg.ns ≤ (g'.node p.2).x :=
+  C04_sinkcoloring_separated_layered cfg.ns g3 (layersWF_upto_phase3 cfg g1 g2 g3 h2 h3) hL g' d h
+
+end Autog
